@@ -63,6 +63,7 @@ c02_tag(sb, K, A, B, Vs, _, _, _, _) :- c02_s(sb, A, B, Vs, K).
 c02_tag(bs, K, A, B, Vs, _, _, _, _) :- c02_s(bs, B, A, Vs, K).
 c02_tag(cp, K, A, B, _, _, _, _, _) :- copy_term(t(A, B), Y), verif_out(cp, y(K, same, [t(A, B)|Y])).
 c02_tag(hd, K, A, B, Vs, W, C, _, _) :- assertz(c02h(K, A, Vs, A)), c02_h(hd, [B], W, C, B, [W|Vs], K).
+c02_tag(h1, K, A, B, Vs, W, C, _, _) :- assertz(c02f(A, K, Vs, A)), c02_h(h1, [B], W, C, B, [W|Vs], K).
 c02_tag(hp, K, A, B, Vs, W, C, _, _) :- assertz(c02p(K, A, x)), c02_h(hp, [B], W, C, K, Vs, K).
 c02_tag(tx, K, _, B, Vs, W, C, _, _) :- c02_h(tx, [B], W, C, B, [W|Vs], K).
 c02_tag(hs, K, A, B, Vs, W, C, As, Bs) :- c02_mk(hs, K, As, Vs, A, Cl), assertz(Cl), c02_h(hs, Bs, W, C, B, [W|Vs], K).
@@ -82,6 +83,7 @@ c02_mk(hr, K, [A1,A2], Vs, A, c02r(K, A2, A1, Vs, A)).
 c02_mk(hr, K, [A1,A2,A3], Vs, A, c02r(K, A3, A2, A1, Vs, A)).
 c02_mk(hr, K, [A1,A2,A3,A4], Vs, A, c02r(K, A4, A3, A2, A1, Vs, A)).
 c02_call(hd, K, [B], W, C) :- c02h(K, B, W, C).
+c02_call(h1, K, [B], W, C) :- c02f(B, K, W, C).
 c02_call(hp, K, [B], _, K) :- c02p(K, B, y).
 c02_call(tx, K, [B], W, C) :- K < 100, c02t(K, B, W, C).
 c02_call(tx, 100, [B], W, C) :- c02t100(100, B, W, C).
@@ -723,7 +725,7 @@ func (r *c02Ref) expect(tag string) c02Exp {
 			return c02Exp{skip: true}
 		}
 		return c02Exp{}
-	case "hd", "hs", "hr", "tx":
+	case "hd", "h1", "hs", "hr", "tx":
 		if r.hpsto {
 			return c02Exp{skip: true}
 		}
@@ -748,7 +750,7 @@ func (r *c02Ref) expect(tag string) c02Exp {
 
 // tags returns the observations to run for this pair (those whose expectation is asserted).
 func (r *c02Ref) tags(withText bool) []string {
-	all := []string{"eq", "qe", "pf", "oc", "sb", "bs", "cp", "hd"}
+	all := []string{"eq", "qe", "pf", "oc", "sb", "bs", "cp", "hd", "h1"}
 	if r.split {
 		all = append(all, "hs", "hr")
 	}
@@ -1527,6 +1529,17 @@ var c02Fixed = [][2]string{
 	{"p([a, b], 1)", "p([a | X], Y)"},
 	{"foo", "foo"},
 	{"[]", "'[]'"},
+	// closed lists of a fixed length against texts with multi-byte characters (their length in bytes differs from their length)
+	{"[X, 'é']", "[a, 'é']"},
+	{"[X, Y, Z]", "['日', '本', '語']"},
+	{"[X, 233]", "[97, 233]"},
+	{"[X, '😀']", "[a, '😀']"},
+	{"['é', X]", "['é', b]"},
+	{"[A, B]", "['é', 'é']"},
+	{"[A, B, C]", "['é', a]"},
+	{"f([X, 'é'])", "f([a, 'é'])"},
+	{"[X, 'é', Y]", "[h, 'é', l]"},
+	{"[X, 26085, Y]", "[26085, 26085, 26412]"},
 }
 
 // c02Small is a small universe of terms; ALL ordered pairs over it are part of every run.
@@ -1937,6 +1950,8 @@ func c02TagText(tag string) string {
 		return "unify_with_occurs_check(A, B)"
 	case "hd":
 		return "assertz(h(A)), h(B)"
+	case "h1":
+		return "assertz(h1(A, k)), h1(B, k) (the terms are the FIRST argument)"
 	case "hs":
 		return "assertz(h(A1..An)), h(B1..Bn)"
 	case "hr":
